@@ -8,6 +8,27 @@ from vlib import tbatch, xrun
 M = "vlib.harness.h_prog"
 
 
+def cost(p):
+    """rough relative cost of deciding one program: loops multiply the number of paths and the length of each"""
+    src = p["src"]
+    loops = src.count("while ") + src.count("for ")
+    return 1 + 5 * loops + (6 if loops > 1 else 0)
+
+
+def ranges(programs, n_strict, budget):
+    """contiguous index ranges over programs[:n_strict] whose summed cost stays within the budget"""
+    out, lo, acc = [], 0, 0
+    for i in range(n_strict):
+        c = cost(programs[i])
+        if i > lo and acc + c > budget:
+            out.append([lo, i])
+            lo, acc = i, 0
+        acc += c
+    if n_strict > lo:
+        out.append([lo, n_strict])
+    return out
+
+
 def drive(r, programs, n_strict, func, twin, label, cmd, tables, tier, chunk=12, pct=None, static=None, langs="python",
           strict_vocabulary=False, key="", settings_files=None):
     """programs[:n_strict] are sliced in chunks; programs[n_strict:] (witnesses) one per slice."""
@@ -30,7 +51,7 @@ def drive(r, programs, n_strict, func, twin, label, cmd, tables, tier, chunk=12,
         skip = sorted(set(unsupported) | set(empty))
         if static:
             static(h, r, programs, skip)
-        slices = [dict(batch=path, range=[lo, min(lo + chunk, n_strict)], skip=skip) for lo in range(0, n_strict, chunk)]
+        slices = [dict(batch=path, range=rg, skip=skip) for rg in ranges(programs, n_strict, chunk)]
         slices += [dict(batch=path, range=[i, i + 1], skip=[]) for i in range(n_strict, len(programs)) if i not in skip]
         pct = pct or (300 if tier == "quick" else 1200)
         pending, rounds, covered = slices, 0, set()
